@@ -733,6 +733,39 @@ def r04_10(facts, res):
                             f["file"], f["line"], {}))
 
 
+LEAF_ITEMS = ("XmlComment", "XmlCData", "XmlProcessingInstruction", "XmlCharReference", "XmlUnexpandedEntityReference", "XmlText")
+
+
+def r04_11(facts, res):
+    """For the leaf items the templates of the compact printer are checked against their productions (R04-2).  The pretty
+    printer of a leaf item therefore has to write the item through Display (`write!(f, "{}", self)`, with indentation at most):
+    a pretty printer that writes a field itself (`self.text` for a character reference) emits unescaped content."""
+    st = res.rule("R04-11", instances=0)
+    for ty in LEAF_ITEMS:
+        f = facts.fn_opt("xml_info::<%s as IndentedDisplay>::indented" % ty)
+        if f is None or "body" not in f:
+            continue
+        st["instances"] += 1
+        bad, delegated = [], False
+        seen = set()
+        for n in walk(f["body"]):
+            if n.get("k") in ("Call", "MethodCall") and str(n.get("mac", "")).startswith(("write", "writeln")) and n.get("snip") and n["snip"] not in seen:
+                seen.add(n["snip"])
+                tmpl, args = split_args(n["snip"])
+                for a in args[1:] if args and args[0] == "f" else args:
+                    if a == "self":
+                        delegated = True
+                    elif re.search(r"self\.\w+", a):
+                        bad.append(a)
+        ok = delegated and not bad
+        res.oblige(1, ok)
+        if not ok:
+            res.add(Finding("R04-11", ty, "%s %s: the pretty-printed form of this item is not the checked compact form"
+                            % (f["path"], ("writes %s itself" % bad) if bad else "does not write the item through Display"), f["file"], f["line"], {}))
+    if st["instances"] < 6:
+        raise BrokenCheck("R04-11: %d leaf pretty printers (floor 6)" % st["instances"])
+
+
 def run(facts, tier):
     res = Result("C04")
     res.explanation = (
@@ -780,6 +813,7 @@ def run(facts, tier):
     r04_8(facts, res)
     r04_9(facts, res)
     r04_10(facts, res)
+    r04_11(facts, res)
     # ---- R04-3
     st3 = res.rule("R04-3", instances=0)
     for ty in ITEM_TYPES:
